@@ -17,6 +17,10 @@ def parseVal (s : String) : Option Val :=
     else t.toNat?.map (fun n => .big (n : Int))
   else none
 
+def parseIntTok (t : String) : Option Int :=
+  if t.startsWith "-" then (t.drop 1).toString.toNat?.map (fun n => -(n : Int)) else t.toNat?.map (fun n => (n : Int))
+def parseOptInt (s : String) : Option (Option Int) := if s == "-" then some none else (parseIntTok s).map some
+
 def parseOp (toks : List String) : Option Op :=
   match toks with
   | ["buf", l, m] => do some (.newBuf (← l.toNat?) (← parseOptNat m))
@@ -31,7 +35,7 @@ def parseOp (toks : List String) : Option Op :=
   | ["detach"] => some .detach
   | ["copy", d, sv, o] => do some (.copy (← d.toNat?) (← sv.toNat?) (← o.toNat?))
   | ["scopy", d, sv, o] => do some (.copy (← d.toNat?) (← sv.toNat?) (← o.toNat?))   -- same bytes, source held in a SharedArrayBuffer
-  | ["cw", v, t, st, e] => do some (.copyWithin (← v.toNat?) (← t.toNat?) (← st.toNat?) (← parseOptNat e))
+  | ["cw", v, t, st, e] => do some (.copyWithin (← v.toNat?) (← parseIntTok t) (← parseIntTok st) (← parseOptInt e))
   | _ => none
 
 def step' (s : St) (toks : List String) : St × String :=
